@@ -125,6 +125,10 @@ def _rand_bucket(rng: random.Random):
     # (a threshold of exactly 0 is legal: no distance beats it, any overlap does)
     thr = _rand_thr(rng, mode)
     confs = rng.sample(range(1, 100000), n)
+    tilted = rng.random() < 0.3
+    if n >= 2 and rng.random() < 0.3:     # the extreme confidences: exactly 1 for the best, exactly 0 for the worst result
+        confs[confs.index(max(confs))] = 100000
+        confs[confs.index(min(confs))] = 0
     results = []
     ngt_car = 0
     for k in range(n):
@@ -145,6 +149,13 @@ def _rand_bucket(rng: random.Random):
                        size=tuple(s * rng.uniform(0.8, 1.2) for s in est.state.size), label=gl, score=1.0, vid=k + 1)
             if gl == "car":
                 ngt_car += 1
+        if tilted:
+            # boxes reported on a slope / banked road: roll and pitch differ between the two objects, the heading (yaw) is what it was
+            from pyquaternion import Quaternion as _Q
+
+            for o_ in (est, gt):
+                if o_ is not None:
+                    o_.state.orientation = o_.state.orientation * _Q(axis=[0, 1, 0], radians=rng.uniform(-0.12, 0.12)) * _Q(axis=[1, 0, 0], radians=rng.uniform(-0.12, 0.12))
         results.append(DynamicObjectWithPerceptionResult(est, gt, POLICIES[policy]))
     g = ngt_car + rng.choice([0, 0, 1, 3])
     if rng.random() < 0.05:
